@@ -166,7 +166,54 @@ FUNC_TEMPLATES = {
 }
 
 
+def tree_search():
+    """dtml-tree: a transient failure of branches_expr while the tag works out its expand_all state, and failures inside
+    the rows; afterwards the namespace must resolve names as before the tag"""
+    from DocumentTemplate.DT_HTML import HTML
+
+    class Node:
+        def __init__(self, ident, sub=()):
+            self.id = ident
+            self.sub = list(sub)
+            self.x = 'NODE-' + ident
+
+        def tpId(self):
+            return self.id
+
+        def tpValues(self):
+            return self.sub
+
+    class Resp:
+        def setCookie(self, *a, **k):
+            pass
+    n = 0
+    root = Node('r', [Node('a', [Node('a1')]), Node('b')])
+    for fail_at in range(1, 8):
+        for extra in ({'expand_all': 1}, {}):
+            calls = [0]
+
+            def fetch():
+                calls[0] += 1
+                if calls[0] == fail_at:
+                    raise ValueError('transient')
+                return []
+            src = ('<dtml-try><dtml-tree expr="root" branches_expr="fetch()">[<dtml-var id>]</dtml-tree>'
+                   '<dtml-except>E</dtml-try>|<dtml-var x>')
+            n += 1
+            out = HTML(src)(root=root, URL='http://h/d', RESPONSE=Resp(), fetch=fetch, x='outer', **extra)
+            if not out.endswith('|outer'):
+                return n, dict(source=src, namespace=dict(extra, fetch='raises ValueError on call %d' % fail_at),
+                               output=out[-40:], expected_suffix='|outer',
+                               what='a namespace entry pushed by dtml-tree is still there after the tag')
+    return n, None
+
+
 def native_for(oid, model):
+    if oid.startswith('C08.tree.'):
+        n, fail = tree_search()
+        if fail:
+            return dict(holds=False, inputs=fail, observed='namespace stack differs from entry after dtml-tree', cases_tried=n)
+        return dict(holds=True, cases_tried=n, note='bounded native search found no failing input')
     only = None
     for frag, names in FUNC_TEMPLATES.items():
         if frag in oid:
